@@ -441,6 +441,12 @@ func (m c12) Case(c *Ctx, r *RNG) {
 			s.Types[i].NoFromType = true // relationships declared without FromType (one-way relationships need none)
 		}
 	}
+	if r.Chance(1, 3) {
+		// "once a schema has been built" does not say it passes Check: a relationship to a type the schema lacks
+		ti := r.Intn(len(s.Types))
+		s.Types[ti].Rels = append(s.Types[ti].Rels, RelSpec{Name: "zz-ghost", ToOne: r.Bool(), ToType: "ghost"})
+		c.Count("schemas_with_dangling_relationship")
+	}
 	var schema *jsonapi.Schema
 	if pi := Guard(func() { schema = buildSchema(s) }); pi != nil {
 		c.Violate("panic@"+pi.Frame+"/build-schema", "%s", pi)
